@@ -60,6 +60,7 @@ class _State:
         self.thread = None
         self.inner_beats = 0
         self.swallowed = 0
+        self.exited = False
 
 
 def _busy_until(state, t_end, attr='beats'):
@@ -148,7 +149,14 @@ def check_case(case):
     limit = case['limit_ms']/1000.
     state = _State()
     t0 = time.monotonic()
-    func, value, exc_cls = make_function(case, state, run_timeout, t0)
+    func0, value, exc_cls = make_function(case, state, run_timeout, t0)
+
+    def func():
+        # 'exited' = the function is over, whichever way (returned, raised, or aborted by the injected interrupt)
+        try:
+            return func0()
+        finally:
+            state.exited = True
     outcome = None
     payload = None
     d0 = {'kind': kind, 'delta_ms': case['delta_ms'], 'limit_ms': case['limit_ms']}
@@ -164,12 +172,14 @@ def check_case(case):
         outcome = 'exception'
         payload = e
     t_ret = time.monotonic()
-    # the worker that ran the function must be gone when a timeout is reported (the limiter joins it)
+    # when a timeout is reported, the function must be over (returned, raised or aborted): the limiter waits for that.
+    # (The thread that ran it may still be alive for a moment, unwinding or idling in its pool: what the statement rules
+    # out is a thread 'still executing the function'.)
     alive_at_return = state.thread is not None and state.thread.is_alive()
     finished_at_return = state.finished is not None
-    if outcome == 'timeout' and alive_at_return and not finished_at_return:
-        res.add(viol('worker_alive_after_timeout', f'{case}: TimeoutError returned while the worker thread is still alive '
-                                                   f'and the function has not finished', data=d0))
+    if outcome == 'timeout' and state.thread is not None and not state.exited:
+        res.add(viol('worker_alive_after_timeout', f'{case}: TimeoutError returned while the function is still being '
+                                                   f'executed by its worker thread (alive={alive_at_return})', data=d0))
     # stray interrupt shortly after?
     try:
         x = 0
